@@ -39,7 +39,7 @@ def run(ck):
     ck.rule = ('real xRFM fits (depth 0-4, 1-3 trees, overlap 0/0.1, several kernels/tasks); (i) leaves replaced by exact probe '
                'leaves (real RFM.predict loop, stubbed kernel) and _predict_tree_hard / predict compared bit-for-bit with the Coq model on '
                'random batches, permutations, splits, singletons, far rows; (ii) real leaves: predict vs mpmath kernel expansion of the '
-               'leaf reached by exact routing.  non-trivial = tree has >= 1 split and batch has >= 2 rows; distinct by hash of tree+batch')
+               'leaf reached by exact routing; (iib) the same rows inside a 50,025-row batch (crossing the 20k kernel and 50k leaf batching thresholds) vs a 7-row batch.  non-trivial = tree has >= 1 split and batch has >= 2 rows; distinct by hash of tree+batch')
     ck.trusted += ['Coq 8.16.1 kernel + vm_compute', 'harness probe leaf (stubbed kernel only)', 'exact Fraction routing + mpmath expansion oracle',
                    'float32->Q printing']
     ck.assumptions += ['rows whose exact projection is within d*2^-20*(sum|x_i v_i|+|b|) of a threshold are excluded (counted in `skipped`)',
@@ -73,8 +73,9 @@ def run(ck):
         if kern == 'lpq':
             extra = dict(norm_p=1.5)
         exponent = [1.0, 1.2, 0.8][i % 3]
-        params = xr.default_rfm_params(kernel=kern, iters=1, diag=diag, bandwidth=3.0, exponent=exponent,
-                                       bandwidth_mode=bwmode, reg=1e-2, **extra)
+        # odd fits keep the LAST iterate (learned, non-identity feature matrix guaranteed); even fits return the best one
+        params = xr.default_rfm_params(kernel=kern, iters=1 + (i % 2), diag=diag, bandwidth=3.0, exponent=exponent,
+                                       bandwidth_mode=bwmode, reg=1e-2, return_best=(i % 2 == 0), **extra)
         xr.seed_all(1000 + i + ck.seed)
         model = xr.xRFM(rfm_params=params, max_leaf_size=L, n_trees=n_trees, overlap_fraction=f, verbose=False,
                         split_method=['top_vector_agop_on_subset', 'random_pca', 'linear', 'pca'][i % 4],
@@ -92,6 +93,8 @@ def run(ck):
         depths = [orc.tree_depth(t) for t in model.trees]
         ck.count(f'kernel={kern}'); ck.count(f'task={task}'); ck.count(f'trees_held={len(model.trees)}/{n_trees}')
         ck.count(f'depth={max(depths)}')
+        ck.count('leaf feature matrix ' + ('identity/None' if all(l['model'].M is None or bool((l['model'].M == (torch.ones_like(l['model'].M) if l['model'].M.dim() == 1 else torch.eye(l['model'].M.shape[0]))).all())
+                                                                    for t in model.trees for l in orc.tree_leaves(t)) else 'learned'))
 
         # ---------- (ii) real leaves: predict == mean over trees of the expansion of the leaf reached (regression) ----------
         qrows = np.concatenate([X[:3], xr.make_X('random', 3, d, rng), 1e3 * xr.make_X('random', 1, d, rng)]).astype(np.float32)
@@ -122,6 +125,31 @@ def run(ck):
                     ck.violation(f'predict != mean over held trees of sum_i alpha_i K(x,c_i) of the leaf reached: err={err:.3g} tol={tol:.3g} on {desc} row {r}',
                                  dict(desc, row=row.tolist(), got=got[r].tolist(), expected=[float(e) for e in exp]),
                                  key=json.dumps(dict(site='formula', kernel=kern, trees=f'{len(model.trees)}/{n_trees}')))
+
+        # ---------- (ii') batch-size independence across every internal batching threshold (kernel 20k, leaf predict 50k) ----------
+        if task in ('reg', 'reg2'):
+            nearrow = [any(orc.exact_route(t, row, orc.assign_leaf_ids(t))[1] for t in model.trees) for row in qrows]
+            far = [r for r in range(len(qrows)) if not nearrow[r]]
+        if task in ('reg', 'reg2') and far:
+            r0 = far[0]
+            qrows = np.concatenate([qrows[r0:r0 + 1], qrows[[r for r in far if r != r0]]]); got = np.concatenate([got[r0:r0 + 1], got[[r for r in far if r != r0]]])
+            ck.skip('big-batch rows near a threshold', sum(nearrow))
+            big = np.concatenate([qrows, np.repeat(qrows[:1], 50_011, axis=0), qrows[::-1]]).astype(np.float32)
+            with xr.quiet():
+                gbig = np.asarray(model.predict(torch.tensor(big)), dtype=np.float64).reshape(len(big), -1)
+            ref = np.concatenate([got.reshape(len(qrows), -1), np.repeat(got.reshape(len(qrows), -1)[:1], 50_011, axis=0),
+                                  got.reshape(len(qrows), -1)[::-1]])
+            W = max(float(l['model'].weights.abs().sum()) for t in model.trees for l in orc.tree_leaves(t))
+            tolb = 2e-5 * (W + max(1.0, float(np.abs(ref).max())))
+            errs = np.abs(gbig - ref).max(axis=1)
+            ck.case(dict(desc, kind='big-batch'), nontrivial=True)
+            if not (errs.max() <= tolb):
+                r = int(errs.argmax())
+                ck.violation(f'prediction of a row depends on the batch it is in: row {r} of a {len(big)}-row batch = {gbig[r].tolist()} but the same row '
+                             f'predicted in a {len(qrows)}-row batch = {ref[r].tolist()} (err {errs.max():.3g} > {tolb:.3g}) on {desc}',
+                             dict(desc, row=big[r].tolist(), index=r, batch_rows=len(big), got=gbig[r].tolist(), want=ref[r].tolist(),
+                                  how='batch = the query rows away from thresholds + 50011 copies of the first + the same rows reversed'),
+                             key=json.dumps(dict(site='big-batch', kernel=kern)))
 
         # ---------- (i) exact probes ----------
         bs = int(rng.choice([1, 2, 3, 7, 50]))
